@@ -210,6 +210,28 @@ def run_deterministic(spec, rec: Recorder):
             rec.seen("algorithm_substitution_outcomes", out)
             k += 1
         rec.count("algorithm_substitutions", k)
+        # blobs made from PUBLIC data only, for the victim's root key id and SID: the key-encryption key is derived from a
+        # degenerate seed (empty / all-zero L2 key, or the public constants) at the base's position and at the positions a
+        # cache treats specially ((31,31), (0,0), (31,0), (0,31)).  None of them may decrypt: if one does, anybody can forge.
+        from vf.ref import cms as _cms, crypto as _crypto, gkdi as _rg
+
+        p_ = _cms.parse(base.blob)
+        kid0 = _rg.dec_key_identifier(p_["key_identifier"])
+        sid0 = p_.get("descriptor_value")
+        forged = 0
+        if sid0:
+            for pos in {(kid0["l1"], kid0["l2"]), (31, 31), (0, 0), (31, 0), (0, 31)}:
+                for seed_name, seed_ in (("empty", b""), ("zero64", bytes(64)), ("root-key-id", kid0["root_key_identifier"].bytes_le * 4)):
+                    nonce = rng.randbytes(32)
+                    kek = _crypto.kek_nonce(base.rk.hash_name, seed_, nonce)
+                    evil = b"forged from public data"
+                    fb = _cms.reference_protect(evil, sid0, base.rkid, base.rk, kid0["l0"], pos[0], pos[1], nonce=nonce, cek=rng.randbytes(32), gcm_nonce=rng.randbytes(12), in_envelope=base.layout == "envelope", domain=kid0["domain_name"], forest=kid0["forest_name"], public=dict(key_info=nonce, kek=kek))
+                    # (reference_protect marks caller-supplied KEKs as public-key mode: clear that flag again - nonce mode)
+                    off = fb.find(_cms.parse(fb)["key_identifier"])
+                    fb = fb[: off + 8] + (int.from_bytes(fb[off + 8 : off + 12], "little") & ~1).to_bytes(4, "little") + fb[off + 12 :]
+                    execute(rec, base, cache, fb, f"forged under the {seed_name} seed at {pos}", {"forged_seed": seed_name, "position": list(pos)})
+                    forged += 1
+        rec.count("forged_from_public_data", forged)
         rec.count("mutations_executed", n + k)
         rec.bulk(n + k, n + k)
         rec.mark_exhaustive(f"per-TLV delete/empty/duplicate, all values of short primitives, algorithm substitution matrix for {base.name}")
